@@ -1450,4 +1450,32 @@ int64_t evaluate_enum_construct(const ASTNode *node, Interpreter &interpreter) {
     return arg_value;
 }
 
+Variable make_enum_value(const ASTNode *node, Interpreter &interpreter) {
+    Variable enum_var;
+    enum_var.is_enum = true;
+    enum_var.type = TYPE_ENUM;
+    enum_var.enum_type_name = node->enum_name;
+    enum_var.enum_variant = node->enum_member;
+    enum_var.is_struct = true; // enumはstruct表現でもある
+    enum_var.struct_type_name = node->enum_name;
+    enum_var.is_assigned = true;
+
+    if (node->node_type == ASTNodeType::AST_ENUM_ACCESS) {
+        // unit variant: 定義の検証も兼ねてメンバー値を取得
+        enum_var.value = evaluate_enum_access(node, interpreter);
+    } else if (!node->arguments.empty()) {
+        TypedValue payload =
+            interpreter.evaluate_typed(node->arguments[0].get());
+        enum_var.has_associated_value = true;
+        if (payload.is_struct() && payload.struct_data) {
+            enum_var.associated_value = new Variable(*payload.struct_data);
+        } else if (payload.type.type_info == TYPE_STRING) {
+            enum_var.associated_str_value = payload.string_value;
+        } else {
+            enum_var.associated_int_value = payload.as_numeric();
+        }
+    }
+    return enum_var;
+}
+
 } // namespace SpecialAccessHelpers
